@@ -1,0 +1,115 @@
+// Copyright 2019 The Scriggo Authors. All rights reserved.
+// Use of this source code is governed by a BSD-style
+// license that can be found in the LICENSE file.
+
+//go:build verif
+
+package runtime
+
+import (
+	"reflect"
+	"sync/atomic"
+)
+
+// Verification hooks, compiled in only with the build tag "verif". They let
+// an external controlled scheduler observe and pause the virtual machine at
+// instruction granularity. With the tag off (verif_off.go) every call site is
+// guarded by a false constant and compiles to nothing.
+
+const verifEnabled = true
+
+// Kinds of VerifEvent.
+const (
+	VerifStep        = iota // before an instruction is fetched (and before the done check)
+	VerifBegin              // runFunc starts on this goroutine
+	VerifEnd                // runFunc returns on this goroutine
+	VerifSpawn              // a go statement is about to start Child
+	VerifWatcher            // the context watcher woke up on ctx.Done and is about to set the done flag
+	VerifAfterSelect        // reflect.Select returned in OpSelect
+	VerifCallNative         // a native function is about to be called
+)
+
+// VerifEvent describes a hooked point of the execution.
+type VerifEvent struct {
+	Kind    int
+	VM      *VM
+	Child   *VM
+	Fn      *Function
+	PC      Addr
+	Op      int
+	A, B, C int8
+	Done    bool                 // value of the env done flag at this point
+	HasCtx  bool                 // the env has a cancellable context
+	Cases   []reflect.SelectCase // at a Step on OpSelect and at AfterSelect: the VM's own cases slice (aliased)
+	Native  *NativeFunction
+}
+
+var verifHook atomic.Pointer[func(*VerifEvent)]
+
+// SetVerifHook installs (or, with nil, removes) the hook.
+func SetVerifHook(h func(*VerifEvent)) {
+	if h == nil {
+		verifHook.Store(nil)
+		return
+	}
+	verifHook.Store(&h)
+}
+
+// VerifNativeName returns the package and name of a native function.
+func VerifNativeName(fn *NativeFunction) (pkg, name string) { return fn.pkg, fn.name }
+
+// VerifNativeFunc returns the Go function wrapped by a native function.
+func VerifNativeFunc(fn *NativeFunction) any { return fn.function }
+
+func verifStep(vm *VM) {
+	h := verifHook.Load()
+	if h == nil {
+		return
+	}
+	ev := VerifEvent{Kind: VerifStep, VM: vm, Fn: vm.fn, PC: vm.pc,
+		Done: atomic.LoadInt32(&vm.env.done) == 1, HasCtx: vm.env.doneChan != nil}
+	if vm.fn != nil && int(vm.pc) < len(vm.fn.Body) {
+		in := vm.fn.Body[vm.pc]
+		ev.Op, ev.A, ev.B, ev.C = int(in.Op), in.A, in.B, in.C
+		if in.Op == OpSelect {
+			ev.Cases = vm.cases
+		}
+	}
+	(*h)(&ev)
+}
+
+func verifBegin(vm *VM) {
+	if h := verifHook.Load(); h != nil {
+		(*h)(&VerifEvent{Kind: VerifBegin, VM: vm, HasCtx: vm.env.doneChan != nil})
+	}
+}
+
+func verifEnd(vm *VM) {
+	if h := verifHook.Load(); h != nil {
+		(*h)(&VerifEvent{Kind: VerifEnd, VM: vm})
+	}
+}
+
+func verifSpawn(vm, child *VM) {
+	if h := verifHook.Load(); h != nil {
+		(*h)(&VerifEvent{Kind: VerifSpawn, VM: vm, Child: child})
+	}
+}
+
+func verifWatcher(vm *VM) {
+	if h := verifHook.Load(); h != nil {
+		(*h)(&VerifEvent{Kind: VerifWatcher, VM: vm})
+	}
+}
+
+func verifAfterSelect(vm *VM) {
+	if h := verifHook.Load(); h != nil {
+		(*h)(&VerifEvent{Kind: VerifAfterSelect, VM: vm, Cases: vm.cases})
+	}
+}
+
+func verifCallNative(vm *VM, fn *NativeFunction) {
+	if h := verifHook.Load(); h != nil {
+		(*h)(&VerifEvent{Kind: VerifCallNative, VM: vm, Native: fn, Fn: vm.fn, PC: vm.pc})
+	}
+}
